@@ -36,6 +36,21 @@ where
     }
 }
 
+/// Deserializes a required `String` field, rejecting an explicit `null`.
+///
+/// A plain `String` would read the YAML scalar `null` as the text `"null"`.
+pub(crate) fn deserialize_non_null_string<'de, D>(deserializer: D) -> Result<String, D::Error>
+where
+    D: Deserializer<'de>,
+{
+    match Option::<String>::deserialize(deserializer)? {
+        Some(s) => Ok(s),
+        None => Err(serde::de::Error::custom(
+            "invalid type: null, expected a string",
+        )),
+    }
+}
+
 // TODO: consider changing the "default" callbacks to return a Result
 impl<T> AbsentNullable<T> {
     pub fn get_non_null<F>(self, name: &str, default: F) -> Result<T, SlinkyError>
